@@ -83,6 +83,24 @@ pub fn generate(tier: &str, seed: u64) -> Vec<String> {
             out.push(format!("c17 op sharded_subset r=0,0+4,{}", w));
         }
     }
+    // sharding configurations whose inner chunk shape does NOT divide the shard shape although the element counts divide:
+    // every operation must be an error or behave like a valid array (a buffer that is returned is fully written)
+    {
+        let dts = dtypes();
+        let dt = dts.iter().find(|d| d.name == "uint8").unwrap().clone();
+        for (shard, inner) in [([4u64, 6u64], [3u64, 4u64]), ([2, 6], [4, 3]), ([6, 4], [4, 2])] {
+            let cfg = Cfg { dtype: dt.clone(), fill: ("9".into(), vec![9]), shape: vec![shard[0] * 2, shard[1]], grid: vec![(true, vec![shard[0]]), (true, vec![shard[1]])], regular_impl: true,
+                keys: ("default".into(), "/".into()),
+                codecs_json: format!("[{{\"name\":\"sharding_indexed\",\"configuration\":{{\"chunk_shape\":[{},{}],\"codecs\":[{{\"name\":\"bytes\"}}],\"index_codecs\":[{{\"name\":\"bytes\",\"configuration\":{{\"endian\":\"little\"}}}}],\"index_location\":\"end\"}}}}]", inner[0], inner[1]),
+                chain_desc: format!("shard[{}x{};end;le;bytes]", inner[0], inner[1]), sharded: true, path: "/bad".into(), eff_inner: None };
+            out.push(cfg.cfg_line("c17", "memory", false, false, " ct=4 invalid=1"));
+            let n = cfg.shape.iter().product::<u64>();
+            out.push(format!("c17 op store_array_subset r=0,0+{} data={}", nl(&cfg.shape), show_elems(&vec![vec![7u8]; n as usize])));
+            out.push("c17 op retrieve_chunk c=0,0".into());
+            out.push(format!("c17 op retrieve_array_subset r=0,0+{}", nl(&cfg.shape)));
+            out.push(format!("c17 op retrieve_chunks box=0,0+2,1"));
+        }
+    }
     let mut k = 0;
     while k < ncfg {
         let cfg = gen_cfg(&mut rng, if k % 2 == 0 { Some(true) } else { None });
